@@ -31,9 +31,9 @@ var levels = map[string]string{
 var rules = map[string]string{
 	"C29": "real blocks (real signed txns executed through Chain.UpdateState, real miner key) cloned through the JSON receive path; every single tamper of the effect-relevant field list is applied to every block and Block.ComputeHash / Transaction.VerifyHash / VerifyOutputHash / Block.Validate are observed; distinct = (tamper class, field, variant, detected-by) tuples",
 	"C30": "validly signed transactions (ed25519 and bls0chain, send/data/smart-contract) cloned through the JSON receive path (ComputeProperties) and validated with ValidateWrtTime; every listed field is mutated singly in several value classes with stale and recomputed hash; every tampered transaction is also delivered as a block transaction (output + correct output hash) to ValidateWrtTimeForBlock(block time, true/false) and, inside a block of 1..4 transactions received through the block JSON path, to miner.Chain.ValidateTransactions (batch sizes 1, 2, 1000; aggregate signature path for bls0chain); distinct = (path, scheme, field, value class, hash variant, outcome) tuples",
-	"C32": "n<=64 (key,message,signature) items fed to BLS0ChainAggregateSignatureScheme with every batch size class, with each corruption pattern (none, single, several, wrong key, wrong message, swapped pair, cancelling pair same/cross batch, cancelling triple; forged sets that sum to the neutral point: whole set, every batch, one batch, seeded subset, opposite pair same/cross batch; neutral-point signatures: single, one batch, all) at seeded positions, also through miner.Chain.ValidateTransactions and chain.Chain.VerifyTickets; oracle = conjunction of individual herumi verifications; distinct = (n, batch size, pattern, position class, outcome) tuples",
+	"C32": "n<=64 (key,message,signature) items fed to BLS0ChainAggregateSignatureScheme with every batch size class, with each corruption pattern (none, single, several, wrong key, wrong message, swapped pair, cancelling pair same/cross batch, cancelling triple; forged sets that sum to the neutral point: whole set, every batch, one batch, seeded subset, opposite pair same/cross batch; neutral-point signatures: single, one batch, all) at seeded positions, also through miner.Chain.ValidateTransactions and chain.Chain.VerifyTickets; ValidateTransactions also on blocks of which a seeded subset (one, two, half, all but one per batch, batch heads, batch tails; batch sizes 2..n and 1000) was validated before and recorded with Chain.AddValidatedTxns(hash, genuine signature), delivered unchanged, with one recorded transaction's signature replaced (other key, shifted, random point, neutral point, empty), with an unrecorded transaction corrupted, or with a record holding another signature; oracle = conjunction of individual herumi verifications of the signatures the block actually carries; distinct = (n, batch size, pattern, position class, outcome) tuples",
 	"C33": "real DKG instances (1<=t<=n<=9) installed in a real miner chain; VRF shares (valid, wrong message, wrong signer, other DKG, non-member, garbage, duplicates, wrong timeout count) delivered in seeded orders through miner.Chain.AddVRFShare / verifyVRFShare / Round.AddVRFShare / ThresholdNumBLSSigReceived, directly and EARLY (previous round unknown / without seed, timeout count ahead of the round) so that they are parked in the round's share cache and released later; several observers get the same messages in different orders; oracle = every held share verifies under the reference key share, seed only at threshold, seed = seed of the group signature recovered from reference shares, equal for all observers; distinct = (t, n, delivery pattern, outcome) tuples",
-	"C34": "real bls.MakeDKG instances for every 1<=t<=n<=N: all n*n shares validated against the published polynomials, tampered shares rejected, every t-subset of every instance (exhaustive) in several orders recovers one group signature that verifies under the group public key; threshold client keys, split keys, ShareOrSigns.Validate; distinct = (component, t, n, case class, outcome) tuples",
+	"C34": "real bls.MakeDKG instances for every 1<=t<=n<=N: all n*n shares validated against the published polynomials, tampered shares rejected, every t-subset of every instance (exhaustive) in several orders recovers one group signature that verifies under the group public key; then the SAME DKG objects aggregate again (unchanged shares twice; 1..n-t dealers disqualified with DeleteFromSet cumulatively and at once, in different list orders; disqualified dealers re-added; a share force-replaced by a bad one and restored) and after every step the whole statement is judged on the qualified set against keys the harness computes from the qualified dealers' polynomials; threshold client keys, split keys, ShareOrSigns.Validate; distinct = (component, t, n, case class, outcome) tuples",
 	"C47": "seeded key pairs for ed25519 and bls0chain: sign/verify, every other key, other hashes, every single-bit flip of signature and public key, empty/short/oversized/non-hex inputs; client id vs sha3-256 computed with x/crypto directly; distinct = (scheme, case class, outcome) tuples",
 }
 
@@ -136,6 +136,9 @@ func finishParent(run *mon.Run, prop, tier string) {
 		run.RequireMin("c32.pattern.zero-sum-all-forged", 10)
 		run.RequireMin("c32.pattern.opposite-forged-pair", 10)
 		run.RequireMin("c32.pattern.neutral-all", 10)
+		run.RequireMin("c32.prevalidated_all_valid_accepted", 100)
+		run.RequireMin("c32.prevalidated_invalid_rejected", 400)
+		run.RequireMin("c32.prevalidated.recorded-txn-signed-by-other-key", 50)
 		run.Assume("the reference verdict is the conjunction of herumi Sign.Verify per item (trusted library), never the aggregate scheme")
 	case "C33":
 		run.RequireMin("c33.seed_agreement_evaluated", 20)
@@ -150,6 +153,12 @@ func finishParent(run *mon.Run, prop, tier string) {
 		run.Exhaustive(true) // bound: every t-subset (x3 orders) of every generated DKG / threshold-key instance, all 1<=t<=n<=8 (quick) or 9 (thorough)
 		run.RequireMin("c34.share_validated", 100)
 		run.RequireMin("c34.subset_recovered", 100)
+		run.RequireMin("c34.reaggregation_stage_checked", 100)
+		run.RequireMin("c34.reaggregation.repeat", 40)
+		run.RequireMin("c34.reaggregation.disqualified-1-cumulative", 10)
+		run.RequireMin("c34.reaggregation.re-added-all", 10)
+		run.RequireMin("c34.reaggregation.replaced-and-restored", 20)
+		run.RequireMin("c34.reaggregation_subset_recovered", 1000)
 		run.Assume("herumi pairing verification (Sign.Verify) is the trusted judge of a signature's validity under a public key")
 	case "C47":
 		run.RequireMin("c47.positive", 40)
